@@ -97,6 +97,8 @@ func HBoundary() []string {
 		"ups:99:" + hxs("a"), "ups:55:" + hxs("zz"), "ups:2:" + hxs("x"), "ups:60:" + hxs("n1.x"), "ups:60:" + hxs("n1"),
 		"ups:60:" + hxs("n1.x.q"), "ups:60:" + hxs("p1.x"), "ups:55:" + hxs("0b"), "ups:55:-", "ups:60:" + hxs(".n1"),
 		"ups:1:" + hxs("x"), "ups:0:-",
+		"upm:3:-:2:-:55:" + hxs("0a"), "upm:2:-:60:" + hxs("n1.d.u") + ":66:-", "upm:55:" + hxs("0a.x") + ":2:-", "upm:99:-:66:-",
+		"usb:55:" + hxs("0a"), "usb:60:" + hxs("n1"), "usb:2:" + hxs("x"), "usb:55:" + hxs("zz"), "usb:99:" + hxs("a"),
 		"set:99:" + hxs("q"), "set:1:" + hxs("\x00\x01"), "set:3:" + hxs("12"), "set:3:" + hxs("1x"), "set:3:-",
 		"set:55:" + hxs("0a02hi0b15"), "set:55:" + hxs("0a02hi0b9"), "set:55:" + hxs("0a02hizz"), "set:55:-",
 		"set:60:" + hxs("n105x3abcp12ok"), "set:60:" + hxs("n105x3ab"), "set:0:" + hxs("9"),
@@ -204,7 +206,30 @@ func HRandomOps(g *FieldGen, spec *T, n int) []string {
 	}
 	var ops []string
 	for len(ops) < n {
-		switch r.Intn(16) {
+		switch r.Intn(18) {
+		case 16: // one UnsetFields call with several paths (the first one often names a field that is not set)
+			var parts []string
+			for k := 0; k < 2+r.Intn(2); k++ {
+				id, fs := pickField()
+				var paths []string
+				subPaths(fs, "", &paths)
+				p := ""
+				if len(paths) > 0 && r.Intn(2) == 0 {
+					p = paths[r.Intn(len(paths))]
+				}
+				if r.Intn(10) == 0 {
+					p += ".q"
+				}
+				parts = append(parts, fmt.Sprintf("%d:%s", id, H([]byte(p))))
+			}
+			ops = append(ops, "upm:"+strings.Join(parts, ":"))
+		case 17: // Composite.UnsetSubfield on the field object itself
+			id, fs := pickField()
+			tag := "q"
+			if fs.Name == "c" && len(fs.Kids) > 3 && r.Intn(12) != 0 {
+				tag = fs.Kids[3+r.Intn(len(fs.Kids)-3)].Kids[0].Name
+			}
+			ops = append(ops, fmt.Sprintf("usb:%d:%s", id, H([]byte(tag))))
 		case 0:
 			ops = append(ops, "mti:"+H(r.From([]byte("0123456789"), 4)))
 		case 1, 2: // SetBytes
